@@ -65,6 +65,27 @@ pub struct Scenario {
     pub exec: Option<crate::progen::ExecPlan>,
     #[serde(default)]
     pub info: Option<crate::progen::ProgInfo>,
+    /// C25: iterator walk to observe after the history
+    #[serde(default)]
+    pub walk: Option<WalkPlan>,
+}
+
+/// The positions a module iterator must visit: every instruction of every local function not
+/// listed as skipped, in function and instruction order.
+pub fn expected_walk(model: &Model, plan: &WalkPlan) -> Vec<Visit> {
+    let mut v = vec![];
+    for f in 0..model.funcs.len() as u32 {
+        if plan.skip.contains(&f) {
+            continue;
+        }
+        if let Some(l) = model.local(f) {
+            let n = l.body.len();
+            for (i, mi) in l.body.iter().enumerate() {
+                v.push((f, i as u32, i + 1 == n, mi.ins.clone()));
+            }
+        }
+    }
+    v
 }
 
 impl Scenario {
@@ -199,8 +220,89 @@ pub struct RunResult {
     pub hash_maps: u64,
     /// invariants checked during the run that failed: (after op index, description)
     pub invariant_failures: Vec<(usize, String)>,
-    /// walk observations (C25)
     pub first_panic: Option<(usize, String, PanicInfo)>,
+    /// iterator walks (C25): one entry per requested walk
+    pub walks: Vec<WalkObs>,
+}
+
+/// One visited position: (function id, instruction index, end-of-function flag, instruction)
+pub type Visit = (u32, u32, bool, Ins);
+
+#[derive(Clone, Debug, Serialize)]
+pub struct WalkObs {
+    pub what: String,
+    pub result: Result<Vec<Visit>, PanicInfo>,
+}
+
+#[derive(Clone, Debug, Default, PartialEq, Eq, Serialize, Deserialize)]
+pub struct WalkPlan {
+    pub skip: Vec<u32>,
+    /// number of next() calls before the reset in the partial-walk-then-reset observation
+    pub partial: u32,
+}
+
+fn walk_all(it: &mut ModuleIterator) -> Vec<Visit> {
+    let mut v = vec![];
+    loop {
+        if let (Location::Module { func_idx, instr_idx }, is_end) = it.curr_loc() {
+            let op = it.curr_op().map(Ins::from_op).unwrap_or(Ins::Unknown("none".into()));
+            v.push((*func_idx, instr_idx as u32, is_end, op));
+        }
+        if it.next().is_none() || v.len() > 200_000 {
+            break;
+        }
+    }
+    v
+}
+
+fn do_walks<'a>(module: &mut Module<'a>, plan: &WalkPlan, expect_empty: bool) -> Vec<WalkObs> {
+    let skip: Vec<FunctionID> = plan.skip.iter().map(|f| FunctionID(*f)).collect();
+    let mut out = vec![];
+    if expect_empty {
+        // nothing to visit: construction must work and next() must say so
+        out.push(WalkObs {
+            what: "empty".into(),
+            result: guarded(|| {
+                let mut it = ModuleIterator::new(module, &skip);
+                let mut n = 0;
+                while it.next().is_some() && n < 1000 {
+                    n += 1;
+                }
+                (0..n).map(|i| (u32::MAX, i, false, Ins::Nop)).collect()
+            }),
+        });
+        return out;
+    }
+    out.push(WalkObs {
+        what: "fresh".into(),
+        result: guarded(|| {
+            let mut it = ModuleIterator::new(module, &skip);
+            walk_all(&mut it)
+        }),
+    });
+    out.push(WalkObs {
+        what: "full_then_reset".into(),
+        result: guarded(|| {
+            let mut it = ModuleIterator::new(module, &skip);
+            let _ = walk_all(&mut it);
+            it.reset();
+            walk_all(&mut it)
+        }),
+    });
+    out.push(WalkObs {
+        what: "partial_then_reset".into(),
+        result: guarded(|| {
+            let mut it = ModuleIterator::new(module, &skip);
+            for _ in 0..plan.partial {
+                if it.next().is_none() {
+                    break;
+                }
+            }
+            it.reset();
+            walk_all(&mut it)
+        }),
+    });
+    out
 }
 
 fn tag_of(t: &Option<Vec<u8>>) -> Tag {
@@ -822,6 +924,7 @@ pub fn run_bytes(sc: &Scenario, base_bytes: &[u8]) -> RunResult {
         hash_maps: 0,
         invariant_failures: vec![],
         first_panic: None,
+        walks: vec![],
     };
     let parsed = guarded(|| Module::parse(base_bytes, sc.multi_memory));
     let mut module = match parsed {
@@ -894,6 +997,12 @@ pub fn run_bytes(sc: &Scenario, base_bytes: &[u8]) -> RunResult {
                 }
             }
         }
+    }
+    // iterator walks are observed before the first encoding (encoding re-organises the index
+    // spaces; using pre-encode IDs afterwards is outside what the library promises)
+    if let (Some(plan), false) = (&sc.walk, aborted) {
+        let expected = expected_walk(&model, plan);
+        res.walks = do_walks(&mut module, plan, expected.is_empty());
     }
     if !aborted {
         for t in &sc.tail {
